@@ -64,7 +64,13 @@ class Table:
             self.raw_name = escape_identifier_name(table_name)
             if schema:
                 warnings.warn("Name is in schema.table format, schema param is ignored")
-        self.alias = escape_identifier_name(kwargs.pop("alias", self.raw_name))
+        # without an alias the table goes by its own name, which is escaped already: escaping it twice would
+        # lower-case a quoted name
+        self.alias = (
+            escape_identifier_name(kwargs.pop("alias"))
+            if "alias" in kwargs
+            else self.raw_name
+        )
 
     def __str__(self):
         return f"{self.schema}.{self.raw_name}"
